@@ -26,7 +26,8 @@ from hypothesis import strategies as st
 # ------------------------------------------------------------------ argument templates ('@' -> unique number)
 
 IDENT_T = ["a@", "fn_@", "Var@", "_x@", "ARG_@", "v@_name"]
-UNQ_T = ["a-@.b", "@", "x@/y", "@.5", "-D@", "a@+b", "k@=v", "a@:b", "<@>", "a@,b", "é@", "x@*"]
+UNQ_T = ["a-@.b", "@", "x@/y", "@.5", "-D@", "a@+b", "k@=v", "a@:b", "<@>", "a@,b", "é@", "x@*",
+         "e\u0301@", "\u212a@\u00b2", "%d@", "100%%@"]      # decomposed / compatibility characters, printf-like text
 QUOTED_T = ['"q@"', '"two words @"', '"a;b;@"', '"#@"', '"@ ${v}"', '"esc\\"@"', '"(@)"', '"[@]"', '" @ "',
             '"tab\\t@"', '"$<@>"', '"@@"', '"ü@"']
 VAR_T = ["${v@}", "${a@_b}", "$ENV{E@}", "${${n@}}", "pre${v@}post"]
@@ -262,7 +263,8 @@ def _kind_of(strategy):
 
 
 def _test_name():
-    return st.one_of(ident(), st.sampled_from(['"test name @"', "${t@}", "t-@", "NAMED@", "EXPECTFAILURE@"]))
+    return st.one_of(ident(), st.sampled_from(['"test name @"', "${t@}", "t-@", "NAMED@", "EXPECTFAILURE@", "rate_%d_@", "half_50%_@",
+                                               "cov_100%%_@", "te\u0301st@", "\u212b@"]))
 
 
 def _test_extra():
